@@ -403,8 +403,39 @@ def corpus_cases():
     return out
 
 
+class _Null(object):
+    pass
+
+
 def run_any(case):
     """run a case of any kind under its monitor -> (observation, fails)"""
+    if case.get("logging"):
+        # the same case under another LOGGING configuration of the process (what the client reports must not depend
+        # on whether somebody turned the wire logger up): the named logger(s) at the given level, records discarded
+        import logging
+        saved = logging.root.manager.disable
+        names = case["logging"]["loggers"]
+        olds = [(logging.getLogger(n), logging.getLogger(n).level, logging.getLogger(n).propagate) for n in names]
+        h = logging.NullHandler()
+        try:
+            logging.disable(logging.NOTSET)
+            IC.KEEP_LOGGING[0] = True
+            for lg, _, _ in olds:
+                lg.setLevel(case["logging"]["level"])
+                lg.propagate = False
+                lg.addHandler(h)
+            c2 = dict(case)
+            c2.pop("logging")
+            obs, fails = run_any(c2)
+            return obs, [(sg + ":logging-%s" % case["logging"]["level"], "with logger(s) %s at level %s: %s"
+                          % (names, case["logging"]["level"], wh)) for sg, wh in fails]
+        finally:
+            IC.KEEP_LOGGING[0] = False
+            for lg, lvl, prop in olds:
+                lg.removeHandler(h)
+                lg.setLevel(lvl)
+                lg.propagate = prop
+            logging.disable(saved)
     if case.get("engine"):
         steps = IC.run_engine_script(case)
         fails = []
@@ -579,6 +610,18 @@ def run(ctx):
         for sig, what in fails:
             report(ctx, sig, what, case)
     div = execute(ctx, matrix_cases(ctx.seed, 6 if quick else 150), cov)
+    # a slice of the matrix again with the wire / client loggers turned up to DEBUG (implementation monitors only)
+    import logging as _lg
+    dbg = matrix_cases(ctx.seed + 1, 1 if quick else 12)
+    for k, case in enumerate(dbg):
+        case["logging"] = {"loggers": [["kmip.services.kmip_protocol"], ["kmip.services.kmip_client", "kmip.pie.client"],
+                                       ["kmip", "kmip.services.kmip_protocol"]][k % 3], "level": _lg.DEBUG}
+    for case in dbg:
+        _obs, fails = run_any(case)
+        cov["evaluations"] += 1
+        for sig, what in fails:
+            report(ctx, sig, what, case)
+    cov["cases_with_debug_logging"] = len(dbg)
     run_engine_cases(ctx, cov, ctx.seed, 3 if quick else 40)
     fdiv = run_frames_cases(ctx, cov, ctx.seed, 600 if quick else 20000)
     if div or fdiv:
